@@ -100,6 +100,7 @@ type c02Cfg struct {
 	Trusted uint32 `json:"trusted,omitempty"` // TrustedHeader index (hash taken from the source chain)
 	NoVerify bool  `json:"noverify,omitempty"` // VerifyTransactions off
 	Race     bool  `json:"race,omitempty"`     // a second goroutine flushes continuously during synchronisation (batch boundaries between single Puts)
+	MTB      uint32 `json:"mtb,omitempty"`     // MaxTraceableBlocks (without RemoveUntraceableBlocks), MaxValidUntilBlockIncrement 3
 	Slow     bool  `json:"slow,omitempty"`     // with Race: slow-store mode (c02gate.go) - a write is let through only when every node goroutine is parked, so each flush stays in flight while the synchronising goroutine runs ahead
 }
 
@@ -114,6 +115,10 @@ func (c c02Cfg) hook(b *config.Blockchain) {
 	if c.GC || c.P2PSX || c.NeoFS {
 		b.MaxTraceableBlocks = c02MTB
 		b.MaxValidUntilBlockIncrement = c02MTB / 2
+	}
+	if c.MTB > 0 {
+		b.MaxTraceableBlocks = c.MTB
+		b.MaxValidUntilBlockIncrement = 3
 	}
 	if c.GC {
 		b.Ledger.RemoveUntraceableBlocks = true
